@@ -118,6 +118,8 @@ def cases(tier):
     for s in shapes:
         add("nn.functional.relu", {"shape": s}, [("a", s, ANY)], lambda T: NF.relu(T["a"]), lambda A: R.unary(A["a"], lambda x: x if bool(x > 0) else 0 * x))
         add("nn.functional.leaky_relu", {"shape": s, "slope": 0.1}, [("a", s, ANY)], lambda T: NF.leaky_relu(T["a"], 0.1), lambda A: R.unary(A["a"], lambda x: x if bool(x > 0) else 0.1 * x))
+        for sl in (2.5, -1.0, 0.0, 1.0):      # the slope is any real number: above 1, negative (slope -1 is |x|), 0 (relu), 1 (identity)
+            add("nn.functional.leaky_relu", {"shape": s, "slope": sl}, [("a", s, ANY)], lambda T, sl=sl: NF.leaky_relu(T["a"], sl), lambda A, sl=sl: R.unary(A["a"], lambda x, sl=sl: x if bool(x > 0) else sl * x))
         add("nn.functional.leaky_relu", {"shape": s, "slope": "default 0.01"}, [("a", s, ANY)], lambda T: NF.leaky_relu(T["a"]), lambda A: R.unary(A["a"], lambda x: x if bool(x > 0) else 0.01 * x))
         add("nn.functional.selu", {"shape": s}, [("a", s, ANY)], lambda T: NF.selu(T["a"]),
             lambda A: R.unary(A["a"], lambda x: SCALE * (x if bool(x > 0) else ALPHA * (_exp(x) - 1))))
@@ -418,6 +420,8 @@ def main(tier="quick", seed=0, procs=None, only=None):
     try:
         native_layer_args(run)
         float_part(run, seed)
+        from . import c13 as _c13
+        _c13.nested_part(run, tier, seed)        # "every batch-norm mode": also for layers nested two and three levels below the module whose train()/eval() is called
         from ..rtc import flagindep
         from ..catalog import nn_ops as _nn_ops
         flagindep.run_part(run, _nn_ops.all_cases("quick"))
